@@ -428,3 +428,33 @@ fn c15_3b_spatial_track_without_listener_is_silent() {
     core::mem::forget(b); core::mem::forget(clocks); core::mem::forget(modulators); core::mem::forget(listeners); core::mem::forget(sends);
     core::mem::forget(c1); core::mem::forget(c2); core::mem::forget(c3); core::mem::forget(c4);
 }
+
+// @ob id=C12.1c strength=bounded tier=disabled finding=F6 fn=track/sub.rs::Track::{process,read_commands,resume}
+// @note disabled: CBMC aborts in propositional reduction on this harness (reported as out of memory with 45 GB free); the finding is witnessed by C12.1b together with the contract C03.2b (WaitingToResume -> Stopped when the clock is missing)
+// @req witness for finding F6 through the real objects: a clock is created and removed again (its id is now stale); the track handle issues resume_at(that clock's time); one callback and one process follow
+// @ens (expected to FAIL while F6 is present) the state reported for the track is one of the five track states and querying it does not panic
+#[kani::proof]
+#[kani::unwind(4)]
+#[kani::stub(f32::powf, powf32_model)]
+fn c12_1c_witness_f6_resume_at_removed_clock() {
+    let (mut clocks, mut cctl) = Clocks::new(1);
+    let key = cctl.try_reserve().unwrap();
+    let id = crate::clock::ClockId(key);
+    let (clock, handle) = crate::clock::Clock::new(Value::Fixed(crate::clock::ClockSpeed::TicksPerSecond(1.0)), id);
+    cctl.insert_with_key(key, clock);
+    clocks.on_start_processing();
+    drop(handle); // marks the clock for removal
+    clocks.on_start_processing();
+    let (modulators, c2) = Modulators::new(0);
+    let (listeners, c3) = Listeners::new(0);
+    let (mut sends, c4) = ResourceStorage::<SendTrack>::new(0);
+    let mut b = mk_track(1, Decibels(0.0), vec![], vec![], 0, 0, false);
+    b.writers.resume.write((StartTime::ClockTime(crate::clock::ClockTime { clock: id, ticks: 1, fraction: 0.0 }), zero_tween()));
+    b.track.read_commands();
+    let mut out = [Frame::ZERO; 1];
+    b.track.process(&mut out, 1.0 / 48000.0, &clocks, &modulators, &listeners, None, &mut sends);
+    let s = b.track.shared.state();
+    kani::cover!(s == TrackPlaybackState::Paused);
+    core::mem::forget(b); core::mem::forget(clocks); core::mem::forget(cctl); core::mem::forget(modulators); core::mem::forget(listeners); core::mem::forget(sends);
+    core::mem::forget(c2); core::mem::forget(c3); core::mem::forget(c4);
+}
